@@ -1,3 +1,12 @@
 import NimaVerif.Props.C02
-open Nima.C02
-#print axioms separator_inline
+#print axioms Nima.C02.separator_canonical
+#print axioms Nima.C02.normal_separator_reproduced
+#print axioms Nima.C02.cex_empty_separator
+#print axioms Nima.C02.separator_after_comments_canonical
+#print axioms Nima.C02.canonical_gap_reproduced
+#print axioms Nima.C02.canonical_comment_lines
+#print axioms Nima.C02.line_comment_canonical
+#print axioms Nima.C02.single_line_block_canonical
+#print axioms Nima.C02.multiline_block_canonical
+#print axioms Nima.C02.multiline_block_canonical_text
+#print axioms Nima.C02.written_comments_are_canonical
